@@ -1101,6 +1101,20 @@ pub(crate) fn eval_up_to(
     items: &[ToplevelItem],
     offset: usize,
 ) -> Result<(Value, Position), EvalUpToErr> {
+    env.stop_at_loop_entry = true;
+    let res = eval_up_to_(vfs_path, env, session, items, offset);
+    env.stop_at_loop_entry = false;
+
+    res
+}
+
+fn eval_up_to_(
+    vfs_path: &VfsPathBuf,
+    env: &mut Env,
+    session: &Session,
+    items: &[ToplevelItem],
+    offset: usize,
+) -> Result<(Value, Position), EvalUpToErr> {
     let syn_ids = find_item_at(items, offset, offset);
 
     let mut expr_id: Option<SyntaxId> = None;
@@ -7392,7 +7406,8 @@ pub(crate) fn eval(env: &mut Env, session: &Session) -> Result<Value, EvalError>
                 // `for x in y { z }` loops are a special case. We
                 // want to evaluate `y`, enter the block, then stop
                 // evaluation, so we know the first value of `x`.
-                if matches!(outer_expr.expr_, Expression_::ForIn(_, _, _))
+                if env.stop_at_loop_entry
+                    && matches!(outer_expr.expr_, Expression_::ForIn(_, _, _))
                     && matches!(expr_state, ExpressionState::PartiallyEvaluated(_))
                 {
                     return Ok(Value::unit());
